@@ -91,7 +91,7 @@ def make_reader(src, ignore_comments=True, file_path=None, source_form=None, via
     if via_file and file_path is None:
         d = os.path.join(VERIF_DIR, ".work", "src_%d" % os.getpid())
         os.makedirs(d, exist_ok=True)
-        _tmp_n[0] = (_tmp_n[0] + 1) % 4
+        _tmp_n[0] = (_tmp_n[0] + 1) % 3      # odd: a check that alternates two forms re-uses each path with both
         file_path = os.path.join(d, "case%d.src" % _tmp_n[0])
         with open(file_path, "w", encoding="utf-8", newline="") as fh:
             fh.write(src)
